@@ -553,6 +553,25 @@ def r10(ctx):
     ctx.floor(R, 1)
 
 
+def r12(ctx):
+    R = "C18-R12"
+    ctx.rule(R, "an operation takes effect when its completion is reaped, not when it is submitted: PendingApply::execute is called only from the "
+                "completion queue's drain (CompletionQueue::next) - an fsync executed in schedule_pending flushes before the writes submitted "
+                "ahead of it were reaped (they are not in the pending log yet) and reports success for data a crash then loses")
+    callers = sorted({_root_id(ctx, b) for b, bb, t in who_calls(ctx.w, "turmoil_io_uring::sim::PendingApply::execute")})
+    ok = bool(callers) and all(c.startswith("<turmoil_io_uring::cqueue::CompletionQueue as std::iter::Iterator>::next") for c in callers)
+    ctx.inst(R, "execute:only-when-reaped", ok, "", f"PendingApply::execute is called from {callers}" if ok else
+             f"PendingApply::execute is called from {callers}: an operation is applied outside the completion drain (at submission) - its effect no longer coincides with "
+             "the CQE that reports it")
+    ctx.floor(R, 1)
+
+
+def _root_id(ctx, b):
+    while b.parent and b.parent in ctx.w.bodies:
+        b = ctx.w.bodies[b.parent]
+    return b.id
+
+
 def r11(ctx):
     R = "C18-R11"
     ctx.rule(R, "(a) the two fd tables move together: a function of the file shim that registers a new fd in Fs::open_handles also registers it "
@@ -624,6 +643,8 @@ def _fields(b, op):
 
 def run(ctx):
     r11(ctx)
+    if ctx.config in ("all", "fs_iou"):
+        r12(ctx)
     if ctx.config in ("all", "fs", "fs_iou"):
         from . import C07
         C07.r7(ctx)   # the result of the flush is the result of the fsync: a failed sync_file must not complete with 0
